@@ -237,7 +237,10 @@ def gosym_part(prop, tier, seed, name, entry, args_quick=(), args_thorough=None,
     replay_keys = set()
     for pr in rr["violations"] or []:
         for a in pr["asserts"]:
-            if a["status"] == "violated" and a.get("events") is not None:
+            if a["status"] == "violated":
+                a.setdefault("events", [])   # a violation on a path without symbolic inputs has an empty (omitted) event list
+                if a["events"] is None:
+                    a["events"] = []
                 # only the first counterexample of a violation key is reported (see seen_keys below): replay only that one
                 k = key_fn(a["id"], a["events"], pr.get("outs") or []) if key_fn else "%s:%s" % (name, a["id"])
                 if k in replay_keys:
